@@ -3,10 +3,12 @@ C01 — Every submitted message gets exactly one, correctly attributed send outc
 Tier 2, PARTIAL: single-step theorems over the correlator/handler model (after repairs
 f3792e2, 4216ec2, 30f1721, dec7b5c, c8ff67e) + the aggregation law of segment codes + kernel-
 checked counter-examples for the two history classes on which the full statement is false
-of the code (known findings).  A history-level ledger theorem over all interleavings is the
-session model's job (DESIGN §6 C01); what is proved here is stated exactly.
+of the code (known findings), + the HISTORY-LEVEL ledger for unsegmented messages amid arbitrary other
+traffic (Lemmas/History.lean).  The history-level ledger for segmented messages is not a theorem; what is
+proved here is stated exactly.
 -/
 import SmppVerif.Lemmas.Ledger
+import SmppVerif.Lemmas.History
 
 namespace SmppVerif.Props.C01
 open SmppVerif SmppVerif.Corr SmppVerif.Lemmas.Corr SmppVerif.Lemmas.Expiry SmppVerif.Lemmas.Ledger
@@ -129,6 +131,56 @@ theorem orphan_segment_placeholder (s : CState) (now : Nat) (resp o : Msg)
   rw [hgone]
   simp [hsar]
 
+/-! ### history level: an unsegmented message amid arbitrary other traffic -/
+
+open SmppVerif.Lemmas.History in
+/-- LEDGER, unsegmented messages.  Take any history of correlator-level operations from the empty state —
+    requests stored (submit_sm, segments of other messages, keep-alive probes), responses handled
+    (any type, any status, any order, duplicates, unknown numbers), deliver_sm handled (receipts,
+    inbound segments) — at any times, in which the unsegmented submit_sm `m` (log id `L`, sequence
+    number `q`) is stored once; the rest of the traffic is only required not to reuse `q` or `L`
+    (`Clean`).  Then over the whole history the application sees AT MOST ONE outcome carrying `L`
+    (a response handed over with that log id, or send_error(TimeoutError) for a message with it),
+    and EXACTLY ONE as soon as some later operation settles the request — the response carrying `q`
+    is handled, or a request is stored / a response handled after the time-to-live — provided every
+    response carrying `q` is a submit_sm_resp or a generic_nack (the other case is the known finding
+    `wrong_type_loses_outcome`). -/
+theorem plain_message_exactly_once (L q : Nat) (m : Msg) (pm : Plain L q m) (ttlR ttlD t : Nat)
+    (pre post : List Op) (hc : ∀ op ∈ pre ++ post, Clean L q op) :
+    let n := (runOps L (initState ttlR ttlD) (pre ++ Op.put t m :: post)).2
+    n ≤ 1 ∧ ((∀ op ∈ post, GoodResp q op) → (∃ op ∈ post, Settles q t ttlR op) → n = 1) :=
+  plain_ledger (∀ op ∈ post, GoodResp q op) L q m pm ttlR ttlD t pre post hc (fun g => g)
+
+open SmppVerif.Lemmas.History in
+/-- NO INVENTED ATTRIBUTION, all messages (segmented or not): over any history from the empty state in which no
+    stored request carries the log id `L` (PDUs from the wire carry none), no outcome ever carries `L`. -/
+theorem no_outcome_for_unknown_log_id (L ttlR ttlD : Nat) (ops : List Op) (hf : ∀ op ∈ ops, Foreign L op) :
+    (runOps L (initState ttlR ttlD) ops).2 = 0 :=
+  foreign_ledger L ttlR ttlD ops hf
+
+open SmppVerif.Lemmas.History in
+/-- Non-vacuity (a test): message 10 between a segmented message and a probe, answered late by a
+    rejection, with a duplicate of the answer and a receipt afterwards: one outcome. -/
+example :
+    let m : Msg := { kind := .submitSm, seq := 5, logId := 10 }
+    let seg (sq sseq : Nat) : Msg :=
+      { kind := .submitSm, seq := sq, logId := 7, hasSar := true, sarRef := 4, sarSeq := sseq, sarTotal := 2 }
+    let r (sq st : Nat) : Msg := { kind := .submitSmResp, seq := sq, status := st, msgId := [sq] }
+    (runOps 10 (initState 1000 100000)
+      ([Op.put 1 (seg 1 1), .put 1 (seg 2 2)] ++ Op.put 2 m ::
+       [.resp 3 (r 2 0), .put 4 { kind := .enquireLink, seq := 6 }, .resp 5 (r 5 8), .resp 6 (r 5 8), .resp 7 (r 1 0),
+        .put 5000 { kind := .enquireLink, seq := 8 }])).2 = 1 := by
+  decide +kernel
+
+open SmppVerif.Lemmas.History in
+/-- … and unanswered: reported once, by the first request stored after the time-to-live. -/
+example :
+    let m : Msg := { kind := .submitSm, seq := 5, logId := 10 }
+    (runOps 10 (initState 1000 100000)
+      ([] ++ Op.put 2 m :: [.put 900 { kind := .enquireLink, seq := 6 }, .put 1003 { kind := .enquireLink, seq := 7 },
+        .put 3000 { kind := .enquireLink, seq := 8 }, .resp 3001 { kind := .submitSmResp, seq := 5, msgId := [1] }])).2 = 1 := by
+  decide +kernel
+
 /-! ### the two history classes on which the full statement is FALSE of the code
     (kernel-checked on the model; replayed on the real code by the check every run) -/
 
@@ -183,3 +235,5 @@ end SmppVerif.Props.C01
 #print axioms SmppVerif.Props.C01.orphan_segment_placeholder
 #print axioms SmppVerif.Props.C01.ref_reuse_misattributes
 #print axioms SmppVerif.Props.C01.wrong_type_loses_outcome
+#print axioms SmppVerif.Props.C01.plain_message_exactly_once
+#print axioms SmppVerif.Props.C01.no_outcome_for_unknown_log_id
